@@ -53,17 +53,17 @@ def sentinel : Int := -1000000
 /-- producer program counter: the point before its next shared access -/
 inductive PPC
   | start                       -- before `p.queues.Load(key)`
-  | fastRead (q : QId)          -- fast loop, before `refs := q.refs.Load()`
-  | fastCas (q : QId) (r : Int) -- before `CompareAndSwap(refs, refs+1)`
+  | fastRead (q : Nat)          -- fast loop, before `refs := q.refs.Load()`
+  | fastCas (q : Nat) (r : Int) -- before `CompareAndSwap(refs, refs+1)`
   | create                      -- label createNew, before `queueChPool.Get()`
-  | los (c : ChId)              -- holding channel c, before `LoadOrStore(key, newQ)`
-  | putBack (c : ChId) (q : QId) -- LoadOrStore found q, before `queueChPool.Put(ch)`
-  | slowRead (q : QId)
-  | slowCas (q : QId) (r : Int)
-  | slowDel (q : QId)           -- saw refs < 0, before `CompareAndDelete(key, q)`
-  | addRef (q : QId)            -- stored the new queue, before `refs.Add(1)` and `go convoy()`
-  | enq (q : QId)               -- holds a reference, before `enqueue`
-  | rel (q : QId)               -- enqueued (legacy: before `refs.Add(-1)`)
+  | los (c : Nat)              -- holding channel c, before `LoadOrStore(key, newQ)`
+  | putBack (c : Nat) (q : Nat) -- LoadOrStore found q, before `queueChPool.Put(ch)`
+  | slowRead (q : Nat)
+  | slowCas (q : Nat) (r : Int)
+  | slowDel (q : Nat)           -- saw refs < 0, before `CompareAndDelete(key, q)`
+  | addRef (q : Nat)            -- stored the new queue, before `refs.Add(1)` and `go convoy()`
+  | enq (q : Nat)               -- holds a reference, before `enqueue`
+  | rel (q : Nat)               -- enqueued (legacy: before `refs.Add(-1)`)
   | done
   deriving DecidableEq, Repr
 
@@ -72,7 +72,7 @@ inductive CPC
   | idle            -- queue stored, `go convoy()` not executed yet
   | top             -- loop top, before the lock-free poll of the channel
   | popOvf          -- the poll found the channel empty, before `popOverflowTask`
-  | exec (t : Task) -- running task t (until it returns and — fixed protocol — `refs.Add(-1)`)
+  | exec (t : Nat) -- running task t (until it returns and — fixed protocol — `refs.Add(-1)`)
   | wait            -- blocked in `select { <-ch; <-wake; <-timer.C }`
   | chk1            -- timer fired, before `refs.Load()`
   | chk2            -- before `len(q.ch)`
@@ -86,32 +86,32 @@ inductive CPC
   deriving DecidableEq, Repr
 
 structure Queue where
-  key : Key
-  ch : ChId
-  ovf : List Task
+  key : Nat
+  ch : Nat
+  ovf : List Nat
   ovfMode : Bool
   refs : Int
   cpc : CPC
   deriving DecidableEq, Repr
 
 structure Prod where
-  key : Key
+  key : Nat
   pc : PPC
   deriving DecidableEq, Repr
 
 structure St where
-  map : Key → Option QId
+  map : Nat → Option Nat
   nq : Nat
-  qs : QId → Queue
+  qs : Nat → Queue
   nch : Nat
-  chans : ChId → List Task
-  pool : List ChId
+  chans : Nat → List Nat
+  pool : List Nat
   np : Nat
-  prods : PId → Prod
+  prods : Nat → Prod
   /-- ghost: tasks in the order their `enqueue` critical section ran, per flow key -/
-  accepted : Key → List Task
+  accepted : Nat → List Nat
   /-- ghost: tasks in the order they finished, per key of the queue whose convoy ran them -/
-  done : Key → List Task
+  done : Nat → List Nat
 
 def dummyQ : Queue := ⟨0, 0, [], false, 0, .exited⟩
 
@@ -121,23 +121,44 @@ def init : St :=
 
 /-! ### state updates -/
 
-def setPc (s : St) (p : PId) (pc : PPC) : St :=
+def setPc (s : St) (p : Nat) (pc : PPC) : St :=
   { s with prods := fun i => if i = p then { s.prods p with pc := pc } else s.prods i }
 
-def setQ (s : St) (q : QId) (Q : Queue) : St :=
+def setQ (s : St) (q : Nat) (Q : Queue) : St :=
   { s with qs := fun i => if i = q then Q else s.qs i }
 
-def setChan (s : St) (c : ChId) (l : List Task) : St :=
+def setChan (s : St) (c : Nat) (l : List Nat) : St :=
   { s with chans := fun i => if i = c then l else s.chans i }
 
-def setMap (s : St) (k : Key) (v : Option QId) : St :=
+def setMap (s : St) (k : Nat) (v : Option Nat) : St :=
   { s with map := fun i => if i = k then v else s.map i }
 
-def setCpc (s : St) (q : QId) (pc : CPC) : St := setQ s q { s.qs q with cpc := pc }
-def setRefs (s : St) (q : QId) (r : Int) : St := setQ s q { s.qs q with refs := r }
+/-- a fresh, empty channel `s.nch` (`sync.Pool.New`) -/
+def newChan (s : St) : St :=
+  { s with nch := s.nch + 1, chans := fun i => if i = s.nch then [] else s.chans i }
+
+def setPool (s : St) (l : List Nat) : St := { s with pool := l }
+
+/-- `LoadOrStore` stores a new queue `s.nq` for key k with channel ch -/
+def addQueue (s : St) (k : Nat) (ch : Nat) : St :=
+  { s with nq := s.nq + 1,
+           qs := fun i => if i = s.nq then ⟨k, ch, [], false, 0, .idle⟩ else s.qs i,
+           map := fun i => if i = k then some s.nq else s.map i }
+
+def logAccept (s : St) (k : Nat) (t : Nat) : St :=
+  { s with accepted := fun i => if i = k then s.accepted k ++ [t] else s.accepted i }
+
+def logDone (s : St) (k : Nat) (t : Nat) : St :=
+  { s with done := fun i => if i = k then s.done k ++ [t] else s.done i }
+
+def addProd (s : St) (k : Nat) : St :=
+  { s with np := s.np + 1, prods := fun i => if i = s.np then ⟨k, .start⟩ else s.prods i }
+
+def setCpc (s : St) (q : Nat) (pc : CPC) : St := setQ s q { s.qs q with cpc := pc }
+def setRefs (s : St) (q : Nat) (r : Int) : St := setQ s q { s.qs q with refs := r }
 
 /-- `(*UdpTaskQueue).enqueue` — one `enqueueMu` critical section -/
-def enqueue (cfg : Cfg) (s : St) (q : QId) (t : Task) : St :=
+def enqueue (cfg : Cfg) (s : St) (q : Nat) (t : Nat) : St :=
   let Q := s.qs q
   if Q.ovfMode then setQ s q { Q with ovf := Q.ovf ++ [t] }
   else if (s.chans Q.ch).length < cfg.cap then setChan s Q.ch (s.chans Q.ch ++ [t])
@@ -149,15 +170,15 @@ inductive Sel | recv | wake | timer
 
 inductive Act
   /-- a new `EmitTask(k, ·)` call starts -/
-  | spawn (k : Key)
+  | spawn (k : Nat)
   /-- producer p performs its next access; `c` is consulted only at `queueChPool.Get()`:
   `some c` = the pool hands out channel c, `none` = `New` makes a fresh one -/
-  | prod (p : PId) (c : Option ChId)
+  | prod (p : Nat) (c : Option Nat)
   /-- convoy of queue q performs its next access; `sel` is consulted only at the `select` -/
-  | conv (q : QId) (sel : Sel)
+  | conv (q : Nat) (sel : Sel)
   deriving DecidableEq, Repr
 
-def stepProd (cfg : Cfg) (s : St) (p : PId) (c : Option ChId) : Option St :=
+def stepProd (cfg : Cfg) (s : St) (p : Nat) (c : Option Nat) : Option St :=
   if p < s.np then
     let k := (s.prods p).key
     match (s.prods p).pc with
@@ -173,16 +194,14 @@ def stepProd (cfg : Cfg) (s : St) (p : PId) (c : Option ChId) : Option St :=
       else some (setPc s p (.fastRead q))
     | .create =>
       match c with
-      | none => some (setPc { (setChan s s.nch []) with nch := s.nch + 1 } p (.los s.nch))
+      | none => some (setPc (newChan s) p (.los s.nch))
       | some ch =>
-        if ch ∈ s.pool then some (setPc { s with pool := s.pool.erase ch } p (.los ch)) else none
+        if ch ∈ s.pool then some (setPc (setPool s (s.pool.erase ch)) p (.los ch)) else none
     | .los ch =>
       match s.map k with
       | some q => some (setPc s p (.putBack ch q))
-      | none =>
-        let s1 := setMap (setQ { s with nq := s.nq + 1 } s.nq ⟨k, ch, [], false, 0, .idle⟩) k (some s.nq)
-        some (setPc s1 p (.addRef s.nq))
-    | .putBack ch q => some (setPc { s with pool := s.pool ++ [ch] } p (.slowRead q))
+      | none => some (setPc (addQueue s k ch) p (.addRef s.nq))
+    | .putBack ch q => some (setPc (setPool s (s.pool ++ [ch])) p (.slowRead q))
     | .slowRead q =>
       if (s.qs q).refs < 0 then some (setPc s p (.slowDel q))
       else some (setPc s p (.slowCas q (s.qs q).refs))
@@ -195,15 +214,14 @@ def stepProd (cfg : Cfg) (s : St) (p : PId) (c : Option ChId) : Option St :=
     | .addRef q =>
       some (setPc (setQ s q { s.qs q with refs := (s.qs q).refs + 1, cpc := .top }) p (.enq q))
     | .enq q =>
-      let s1 := enqueue cfg s q p
-      some (setPc { s1 with accepted := fun i => if i = k then s.accepted k ++ [p] else s.accepted i } p (.rel q))
+      some (setPc (logAccept (enqueue cfg s q p) k p) p (.rel q))
     | .rel q =>
       if cfg.gcCountsQueued then some (setPc s p .done)
       else some (setPc (setRefs s q ((s.qs q).refs - 1)) p .done)
     | .done => none
   else none
 
-def stepConv (cfg : Cfg) (s : St) (q : QId) (sel : Sel) : Option St :=
+def stepConv (cfg : Cfg) (s : St) (q : Nat) (sel : Sel) : Option St :=
   if q < s.nq then
     let Q := s.qs q
     match Q.cpc with
@@ -222,9 +240,8 @@ def stepConv (cfg : Cfg) (s : St) (q : QId) (sel : Sel) : Option St :=
           some (setQ s q { Q with ovf := rest, ovfMode := if rest = [] then false else Q.ovfMode,
                                    cpc := .exec t })
     | .exec t =>
-      let s1 := { s with done := fun i => if i = Q.key then s.done Q.key ++ [t] else s.done i }
-      if cfg.gcCountsQueued then some (setQ s1 q { Q with refs := Q.refs - 1, cpc := .top })
-      else some (setQ s1 q { Q with cpc := .top })
+      if cfg.gcCountsQueued then some (setQ (logDone s Q.key t) q { Q with refs := Q.refs - 1, cpc := .top })
+      else some (setQ (logDone s Q.key t) q { Q with cpc := .top })
     | .wait =>
       match sel with
       | .recv =>
@@ -242,7 +259,7 @@ def stepConv (cfg : Cfg) (s : St) (q : QId) (sel : Sel) : Option St :=
     | .del =>
       if s.map Q.key = some q then some (setCpc (setMap s Q.key none) q .recycle)
       else some (setCpc s q .loadChk)
-    | .recycle => some (setCpc { s with pool := s.pool ++ [Q.ch] } q .exited)
+    | .recycle => some (setCpc (setPool s (s.pool ++ [Q.ch])) q .exited)
     | .loadChk =>
       if s.map Q.key = some q then some (setCpc s q .restore) else some (setCpc s q .recycle)
     | .restore => some (setQ s q { Q with refs := 0, cpc := .top })
@@ -251,7 +268,7 @@ def stepConv (cfg : Cfg) (s : St) (q : QId) (sel : Sel) : Option St :=
 
 def step (cfg : Cfg) (s : St) : Act → Option St
   | .spawn k =>
-    some { s with np := s.np + 1, prods := fun i => if i = s.np then ⟨k, .start⟩ else s.prods i }
+    some (addProd s k)
   | .prod p c => stepProd cfg s p c
   | .conv q sel => stepConv cfg s q sel
 
@@ -273,11 +290,11 @@ def cur (Q : Queue) : List Task := match Q.cpc with | .exec t => [t] | _ => []
 
 /-- tasks accepted for flow k and not finished yet, in queue order: running task, channel,
 overflow of the queue the table maps k to -/
-def pending (s : St) (k : Key) : List Task :=
+def pending (s : St) (k : Nat) : List Task :=
   match s.map k with
   | some q => cur (s.qs q) ++ s.chans (s.qs q).ch ++ (s.qs q).ovf
   | none => []
 
-def executing (s : St) (q : QId) : Bool := match (s.qs q).cpc with | .exec _ => true | _ => false
+def executing (s : St) (q : Nat) : Bool := match (s.qs q).cpc with | .exec _ => true | _ => false
 
 end DaeVerif.C13.TQ
